@@ -198,7 +198,7 @@ def replay_window(o):
 
     res = {}
     cwd = os.getcwd()
-    os.chdir("/repo")
+    os.chdir(os.environ.get("VVERIF_REPO", "/repo"))
     try:
         from eth_keys import keys
         from tests.evm_backends.revm_env import RevmEnv
